@@ -28,8 +28,10 @@ def prod(**axes):
     return [dict(zip(keys, vals)) for vals in itertools.product(*[axes[k] for k in keys])]
 
 
-def E(module, func, kind, grid, abs_tol=None):
-    return dict(module=module, func=func, kind=kind, grid=grid, abs_tol=abs_tol)
+def E(module, func, kind, grid, abs_tol=None, floor=2e-6):
+    """floor: absolute accuracy below which a comparison says nothing (solver accuracy); 1e-4 for the two examples that
+    ignore their `solver` argument and are therefore always solved with SCS at its default accuracy"""
+    return dict(module=module, func=func, kind=kind, grid=grid, abs_tol=abs_tol, floor=floor)
 
 
 def _gd_grid():
@@ -49,7 +51,7 @@ ENTRIES = {
     # ---- unconstrained convex minimization
     "gradient_descent": E(U, "wc_gradient_descent", "tight", _gd_grid()),
     "gradient_descent_quadratics": E(U, "wc_gradient_descent_quadratics", "tight",
-                                     [dict(mu=mu * L, L=L, gamma=g / L, n=n) for mu in (0.1, 0.3) for L in (1.0, 3.0) for g in (0.5, 1.0) for n in (1, 2, 4)]),
+                                     [dict(mu=mu * L, L=L, gamma=g / L, n=n) for mu in (0.1, 0.3) for L in (1.0, 3.0) for g in (0.5, 1.0) for n in (1, 2, 4)], floor=1e-4),
     "gradient_descent_qg_convex": E(U, "wc_gradient_descent_qg_convex", "tight",
                                     [dict(L=L, gamma=g / L, n=n) for L in (1.0, 2.0) for g in (0.1, 0.5) for n in (1, 2, 4)]),
     "gradient_descent_qg_convex_decreasing": E(U, "wc_gradient_descent_qg_convex_decreasing", "tight", prod(L=[1.0, 2.0], n=[1, 2, 4])),
@@ -145,3 +147,67 @@ ENTRIES = {
     "inexact_gradient_low_dim": E(LD, "wc_inexact_gradient", "tight", [dict(L=3.0, mu=0.1, epsilon=0.1, n=n) for n in (1, 2)]),
     "frank_wolfe_low_dim": E(LD, "wc_frank_wolfe", "upper", prod(L=[1.0], D=[1.0], n=[2, 5])),
 }
+
+
+# ---------------------------------------------------------------------------------------------------------------------
+# thorough tier: denser grids inside the same documented ranges (more values per parameter, more iteration counts)
+# ---------------------------------------------------------------------------------------------------------------------
+def _ext(name, grid):
+    base = ENTRIES[name]["grid"]
+    out = [kw for kw in grid if kw not in base]
+    return out
+
+
+EXTRA = {
+    "gradient_descent": [dict(L=L, gamma=f / L, n=n) for L in (0.5, 1.0, 2.0, 3.0, 10.0) for f in (0.1, 0.25, 0.5, 0.75, 1.0) for n in (1, 2, 3, 4, 6, 8)],
+    "gradient_descent_contraction": [dict(L=L, mu=m * L, gamma=f / L, n=n) for L in (1.0, 2.0, 5.0) for m in (0.05, 0.1, 0.5) for f in (0.25, 0.5, 1.0, 1.5, 1.9) for n in (1, 2, 3)],
+    "gradient_descent_quadratics": [dict(mu=m * L, L=L, gamma=f / L, n=n) for L in (1.0, 3.0) for m in (0.05, 0.1, 0.3, 0.6) for f in (0.25, 0.5, 1.0) for n in (1, 2, 3, 5)],
+    "gradient_descent_qg_convex": [dict(L=L, gamma=f / L, n=n) for L in (1.0, 2.0, 3.0) for f in (0.05, 0.1, 0.3, 0.5, 1.0) for n in (1, 2, 3, 5)],
+    "gradient_descent_qg_convex_decreasing": prod(L=[0.5, 1.0, 2.0, 5.0], n=[1, 2, 3, 4, 6]),
+    "subgradient_method": [dict(M=M_, n=n, gamma=1 / (math.sqrt(n + 1) * M_)) for M_ in (0.5, 1.0, 2.0, 4.0) for n in (1, 2, 3, 5, 8)],
+    "subgradient_method_rsi_eb": [dict(mu=mu, L=L, gamma=mu / L ** 2, n=n) for mu, L in ((0.1, 1.0), (0.5, 2.0), (0.3, 1.0), (1.0, 3.0)) for n in (1, 2, 3, 5)],
+    "gradient_exact_line_search": _mu_L_n(mus=(0.05, 0.1, 0.3, 0.5), Ls=(1.0, 2.0, 3.0), ns=(1, 2, 3)),
+    "conjugate_gradient": prod(L=[0.5, 1.0, 3.0], n=[1, 2, 3, 4]),
+    "conjugate_gradient_qg_convex": prod(L=[0.5, 1.0, 3.5], n=[1, 2, 3, 5, 8]),
+    "inexact_gradient_descent": [dict(L=L, mu=m * L, epsilon=e, n=n) for L in (1.0, 3.0) for m in (0.05, 0.1, 0.3) for e in (0.05, 0.1, 0.3, 0.5) for n in (1, 2, 3)],
+    "inexact_gradient_exact_line_search": [dict(L=L, mu=m * L, epsilon=e, n=n) for L in (1.0, 3.0) for m in (0.1, 0.3) for e in (0.05, 0.1, 0.3) for n in (1, 2, 3)],
+    "proximal_point": prod(gamma=[0.05, 0.1, 0.5, 1.0, 3.0, 10.0], n=[1, 2, 3, 5, 8]),
+    "optimized_gradient": prod(L=[0.5, 1.0, 3.0], n=[1, 2, 3, 4, 6]),
+    "optimized_gradient_for_gradient": prod(L=[0.5, 1.0, 3.0], n=[1, 2, 3, 4, 6]),
+    "information_theoretic": [dict(mu=mu, L=L, n=n) for mu, L in ((0.01, 3.0), (0.1, 1.0), (0.3, 1.0), (0.5, 2.0)) for n in (1, 2, 3, 4)],
+    "triple_momentum": _mu_L_n(mus=(0.05, 0.1, 0.3), Ls=(1.0, 2.0), ns=(1, 2, 3, 4, 6)),
+    "robust_momentum": [dict(mu=m * L, L=L, lam=lam) for L in (1.0, 2.0) for m in (0.05, 0.1, 0.3) for lam in (0.1, 0.2, 0.5, 0.8)],
+    "accelerated_gradient_convex": [dict(mu=0, L=L, n=n) for L in (0.5, 1.0, 3.0) for n in (1, 2, 3, 5, 8)],
+    "accelerated_gradient_strongly_convex": _mu_L_n(mus=(0.05, 0.1, 0.3), Ls=(1.0, 2.0), ns=(1, 2, 3, 5)),
+    "heavy_ball_momentum_qg_convex": prod(L=[0.5, 1.0, 2.0], n=[1, 2, 3, 5, 8]),
+    "proximal_gradient": [dict(L=L, mu=m * L, gamma=f / L, n=n) for L in (1.0, 2.0) for m in (0.05, 0.1, 0.5) for f in (0.5, 1.0, 1.5, 1.9) for n in (1, 2, 3)],
+    "proximal_gradient_quadratics": [dict(L=L, mu=m * L, gamma=f / L, n=n) for L in (1.0, 2.0) for m in (0.1, 0.5) for f in (0.5, 1.0) for n in (1, 2, 3)],
+    "accelerated_proximal_gradient": [dict(mu=0, L=L, n=n) for L in (0.5, 1.0, 2.0) for n in (1, 2, 3, 5, 8)],
+    "bregman_proximal_point": prod(gamma=[0.5, 1.0, 3.0, 10.0], n=[1, 2, 3, 5, 8]),
+    "frank_wolfe": prod(L=[0.5, 1.0, 2.0], D=[0.5, 1.0, 2.0], n=[1, 2, 4, 8]),
+    "douglas_rachford_splitting_contraction": [dict(mu=m, L=1.0, alpha=a, theta=1.0, n=n) for m in (0.05, 0.1, 0.5) for a in (0.5, 1.0, 3.0) for n in (1, 2, 3)],
+    "no_lips_in_bregman_divergence": [dict(L=L, gamma=1 / L, n=n) for L in (0.1, 0.5, 1.0, 2.0) for n in (2, 3, 4, 6)],
+    "no_lips_in_function_value": [dict(L=L, gamma=f / L, n=n) for L in (0.5, 1.0, 2.0) for f in (0.25, 0.5, 1.0) for n in (1, 2, 3, 5)],
+    "gradient_descent_non_convex": [dict(L=L, gamma=1 / L, n=n) for L in (0.5, 1.0, 2.0, 4.0, 10.0) for n in (1, 2, 3, 5, 8)],
+    "no_lips_1": [dict(L=L, gamma=f / L, n=n) for L in (0.5, 1.0, 2.0) for f in (0.25, 0.5, 0.75) for n in (1, 2, 3, 5)],      # the documented rate has a factor 1/(1 - L gamma): gamma < 1/L
+    "no_lips_2": [dict(L=L, gamma=1 / L, n=n) for L in (0.5, 1.0, 2.0) for n in (1, 2, 3, 5)],
+    "sgd": [dict(L=L, mu=m * L, gamma=1 / L, v=v_, R=R, n=n) for L in (1.0, 2.0) for m in (0.1, 0.5) for v_ in (0.5, 1.0, 2.0, 3.0) for R in (1.0, 2.0) for n in (2, 3, 5)],
+    "sgd_overparametrized": [dict(L=L, mu=m * L, gamma=1 / L, n=n) for L in (1.0, 2.0) for m in (0.05, 0.1, 0.5) for n in (2, 3, 5)],
+    "saga": [dict(L=L, mu=m * L, n=n) for L in (1.0, 2.0) for m in (0.1, 0.25) for n in (2, 3, 5)],
+    "randomized_coordinate_descent_smooth_convex": [dict(L=L, gamma=1 / L, d=d, t=t) for L in (0.5, 1.0, 2.0) for d in (2, 3, 4) for t in (1, 3, 10)],
+    "accelerated_proximal_point_operators": prod(alpha=[0.5, 1.0, 2.1, 5.0], n=[2, 3, 5, 8]),
+    "proximal_point_operators": prod(alpha=[0.5, 1.0, 2.1, 5.0], n=[2, 3, 4, 6]),
+    "optimal_strongly_monotone_proximal_point": prod(n=[1, 2, 3, 5], mu=[0.05, 0.23, 0.5, 1.0]),
+    "halpern_iteration": prod(n=[1, 2, 3, 5, 8]),
+    "krasnoselskii_mann_constant_step_sizes": prod(n=[1, 2, 3, 5, 8], gamma=[0.5, 0.6, 0.75, 0.9, 1.0]),
+    "optimal_contractive_halpern_iteration": prod(n=[1, 2, 3, 5], gamma=[1.05, 1.13, 1.5, 2.0]),
+    "gradient_flow_convex": prod(t=[0.5, 1.0, 2.5, 5.0, 10.0]),
+    "gradient_flow_strongly_convex": prod(mu=[0.05, 0.1, 0.8, 2.0]),
+    "proximal_point_low_dim": prod(alpha=[0.5, 1.0, 2.2], n=[2, 3, 5]),
+}
+for _k in list(EXTRA):
+    EXTRA[_k] = _ext(_k, EXTRA[_k])
+
+
+def grid(name, tier):
+    return ENTRIES[name]["grid"] + (EXTRA.get(name, []) if tier == "thorough" else [])
